@@ -233,7 +233,7 @@ def check_normalize(case, ctx):
 # ------------------------------------------------------------------------------------------------ (c) num_procs
 @st.composite
 def _procs_cases(draw, tier):
-    what = draw(st.sampled_from(["tessellate", "tessellate", "voxelize"]))
+    what = draw(st.sampled_from(["tessellate", "voxelize", "voxelize"]))
     if what == "tessellate":
         n = draw(st.integers(1, 4))
         shapes = [draw(gen.spline(kinds=("surface",), dims=(3,), max_p=2, max_extra=2, different=True)) for _ in range(n)]
@@ -343,7 +343,7 @@ SUBCHECKS = [
              rule="non-trivial = parameter on a knot / domain end (where linear and binary search take different paths), or order > degree"),
     SubCheck("normalize", _norm_cases, check_normalize, quick=300, thorough=1500, shards_quick=2,
              rule="non-trivial = affine range with A != 0 or B != 1, or on-knot/end parameters"),
-    SubCheck("num_procs", _procs_cases, check_num_procs, quick=40, thorough=150, shards_quick=3,
+    SubCheck("num_procs", _procs_cases, check_num_procs, quick=60, thorough=150, shards_quick=3,
              rule="non-trivial = >= 2 surfaces of different sizes, or a voxel count that is not a multiple of num_procs"),
     SubCheck("cache_size", _cache_cases, check_cache_size, quick=6, thorough=20, shards_quick=3, shards_thorough=8,
              rule="non-trivial = battery with more distinct memoisation keys than the smallest cache size"),
